@@ -69,6 +69,10 @@ def make_cases(ctx, rng):
             c["refeed_reverse"] = bool(idx % 2)                  # ... listed in reverse order
         if c["keyw"] >= 3 and idx % 3 == 0:
             c["share2"] = True      # pairs of distinct spectra that agree on the first two key columns
+        if idx % 11 == 8:
+            # the same parsed collection was already rescored in this process with ANOTHER fold count (shallow copies of the
+            # dataset objects, as a user comparing fold counts would do): the judged run is the second one
+            c["prebrew_folds"] = 2 + (int(folds) - 1) % 3 if 2 + (int(folds) - 1) % 3 != int(folds) else 2 + int(folds) % 3
         cases.append(c)
         idx += 1
     # outside the domain boundary B-02: one crowded spectrum with more PSMs than rows div folds.  The fold construction may
@@ -102,6 +106,8 @@ def make_cases(ctx, rng):
              "seed": j, "est": ["feat", "memo", "lr", "tree", "svm"][j % 5], "max_iter": 1 + j % 3, "direction": None, "override": True}
         if j % 5 == 0 and j % 2 == 1:
             c["refeed_seed"] = j + 17
+        if j % 3 == 1:
+            c["prebrew_folds"] = 2 + (folds - 1) % 4 if 2 + (folds - 1) % 4 != folds else 2 + folds % 4
         if c["keyw"] >= 3 and j % 8 != 7:
             c["share2"] = True
         if j % 2 == 0 or c.get("share2"):
@@ -228,6 +234,7 @@ def drive(ctx, cases):
 
 
 def run(ctx):
+    ctx.liveness("Brew", unfair_control=not ctx.quick)      # termination under weak fairness (Brew_live.cfg)
     rng = np.random.default_rng(ctx.seed)
     ctx.phase("model_checking")
     ctx.model_check("Brew", "Brew_quick.cfg", note="1 file, 2 folds, rows<=5, all hash orders, cap 0..2, chunk 1..3, 2 workers")
@@ -245,7 +252,9 @@ def run(ctx):
     ctx.phase("generation")
     cases = make_cases(ctx, rng)
     for i, c in enumerate(cases):
-        if i % 25 == 0 and c.get("est") == "feat" and not c.get("ood"):      # (outside B-02 an empty fold is no violation)
+        # (outside B-02 an empty fold is no violation; an earlier rescoring of the same collection -- prebrew -- would write its
+        # own events into the trace, and that run need not be inside B-02)
+        if i % 25 == 0 and c.get("est") == "feat" and not c.get("ood") and not c.get("prebrew_folds"):
             c["hooks"] = True
     ctx.phase("driving")
     traces = drive(ctx, cases)
@@ -286,6 +295,9 @@ def run(ctx):
     ctx.negative_controls("BrewTrace", "Trace.cfg", bad, name="event corruptions %s" % names)
     ctx.assume("spectrum identity is (collection, spectrum key); crc32 collisions only coarsen the grouping")
     ctx.assume("domain boundary B-02: no spectrum holds more PSMs than (rows of its file) div folds, each file has >= folds rows")
+    # the property as observed at the command line: how the user's options reach the stages (CliFlow.tla, drivers/cliflow.py)
+    from drivers import cliflow
+    cliflow.family(ctx, "C02", model_check=False, light=True)
     return ctx.finish(
         rule="shapes = every assignment of rows to spectra (<=8 rows, <=5 spectra, multiplicity <=3; thorough <=10/6) inside the "
              "fold construction's domain for folds 2..4 (thorough 2..6), enumerated by TLC from BrewGen.tla; each run through the "
@@ -296,6 +308,9 @@ def run(ctx):
 
 
 def replay(ctx, case):
+    if isinstance(case.get("case"), dict) and case["case"].get("kind") == "cliflow":
+        from drivers import cliflow
+        return cliflow.replay(ctx, case, "C02")
     c = case["case"]["case"]
     t = run_case(c)
     t["tid"] = 1
